@@ -3,6 +3,7 @@ package dbsim
 import (
 	"encoding/hex"
 	"fmt"
+	"os"
 
 	"verifsim/core"
 	"verifsim/models/dbmodel"
@@ -514,6 +515,12 @@ func (sim) Generate(prop, tier string, seed uint64) *core.Plan {
 	if r.Chance(1, 2) {
 		group++
 		p.Ops = append(p.Ops, core.Op{K: "reopen", T: group})
+	}
+	if os.Getenv("VERIF_DBSIM_STRICT") != "" {
+		// development knob: also assert the two bbolt cursor behaviours that
+		// are only counted by default (see exec.go: strict, strictBwd)
+		p.Cfg["strict_cdel"] = 1
+		p.Cfg["strict_bwd"] = 1
 	}
 	if anyAcross {
 		// see the comment on pregrow in exec.go
